@@ -368,7 +368,7 @@ fn what_if(w: &mut World, actor: &str, psbt: &Psbt, i: usize) {
     }
     for h in &sat.preimages {
         let hi = &env.uni.hashes[*h];
-        let pre = hi.preimage.to_vec();
+        let pre = hi.psbt_value.clone();
         match hi.kind {
             crate::keys::HashKind::Sha256 => {
                 inp.sha256_preimages.insert(sha256::Hash::from_slice(&hi.digest).unwrap(), pre);
